@@ -577,7 +577,98 @@ def ref_job(job):
 
 # ------------------------------------------------------------------ one history on the implementation
 
-MUTATIONS = ["cell", "column", "drop", "index", "fill"]
+MUTATIONS = ["cell", "column", "drop", "index", "fill", "buffer"]
+
+
+def _cols(fr):
+    if isinstance(fr, pd.Series):
+        return {"<series>": fr}
+    return {str(c): fr.iloc[:, i] for i, c in enumerate(fr.columns)}
+
+
+def shared_columns(a, b):
+    """columns of two frames / series whose VALUE buffers are the same memory (np.shares_memory): a write through numpy
+    into one is a write into the other, whatever pandas' copy-on-write does for .loc/.iloc assignments.
+    (The index is not looked at: pandas shares the immutable index array between a frame and its copy.)"""
+    out = []
+    ca, cb = _cols(a), _cols(b)
+    for c in ca:
+        if c in cb:
+            try:
+                x, y = ca[c].to_numpy(), cb[c].to_numpy()
+                if x.size and y.size and np.shares_memory(x, y):
+                    out.append(c)
+            except Exception:  # noqa
+                pass
+    return out
+
+
+def _writable_buffer(series):
+    buf = series.to_numpy()
+    if buf.dtype.kind != "f" or buf.size == 0:
+        return None
+    if not buf.flags.writeable:
+        try:
+            buf.setflags(write=True)
+        except ValueError:
+            return None
+    return buf
+
+
+def buffer_write_reaches(fr, frames):
+    """write one value through the numpy buffer of every float column of `fr`, look whether any of `frames` (name -> frame)
+    changed, and put the old values back.  Returns the names of the frames that changed."""
+    before = {k: digest(v) for k, v in frames.items()}
+    saved = []
+    for c, col in _cols(fr).items():
+        buf = _writable_buffer(col)
+        if buf is not None:
+            saved.append((buf, buf[0]))
+            buf[0] = -SENTINEL if not (buf[0] == -SENTINEL) else SENTINEL
+    hit = sorted(k for k, v in frames.items() if digest(v) != before[k])
+    for buf, old in saved:
+        buf[0] = old
+    return hit
+
+
+def shared_containers(returned, owner, max_depth=6):
+    """paths inside a returned dict/list structure at which sits a mutable container (dict / list / set) that is also
+    reachable from the owner object's attributes: editing the returned value there edits the owner"""
+    owned = {}
+
+    def reach(x, depth):
+        if depth > max_depth or isinstance(x, (str, bytes, int, float, bool, type(None), pd.DataFrame, pd.Series, pd.Index, np.ndarray)):
+            return
+        if isinstance(x, (dict, list, set)):
+            if id(x) in owned:
+                return
+            owned[id(x)] = x
+            for y in (x.values() if isinstance(x, dict) else x):
+                reach(y, depth + 1)
+        elif hasattr(x, "__dict__"):
+            for y in vars(x).values():
+                reach(y, depth + 1)
+
+    for v in vars(owner).values():
+        reach(v, 0)
+    hits = []
+
+    def walk(x, path, depth):
+        if depth > 12:
+            return
+        if isinstance(x, (dict, list, set)):
+            if id(x) in owned and owned[id(x)] is x and len(x):
+                hits.append(".".join(path) or "<root>")
+                return
+            if isinstance(x, dict):
+                for k, y in x.items():
+                    walk(y, path + [str(k)], depth + 1)
+            elif isinstance(x, list):
+                for i, y in enumerate(x[:50]):
+                    walk(y, path + ["[]"], depth + 1)
+
+    walk(returned, [], 0)
+    return sorted(set(hits))
 
 
 def mutate_in_place(fr, how, salt=0):
@@ -585,6 +676,11 @@ def mutate_in_place(fr, how, salt=0):
     repeated mutation changes the frame again"""
     v = SENTINEL + salt
     if isinstance(fr, pd.Series):
+        if how == "buffer":
+            buf = _writable_buffer(fr)
+            if buf is not None:
+                buf[0] = v
+                return
         if how in ("drop",) and len(fr) > 2:
             fr.drop(fr.index[:2], inplace=True)
         elif how == "index":
@@ -595,6 +691,18 @@ def mutate_in_place(fr, how, salt=0):
                 fr.iloc[-1] = -v
         return
     floats = [j for j in range(fr.shape[1]) if fr.dtypes.iloc[j].kind == "f"]
+    if how == "buffer":
+        # a write through the numpy buffers (np.asarray(df[c]) made writeable): copy-on-write does not see it
+        done = False
+        for j in floats:
+            buf = _writable_buffer(fr.iloc[:, j])
+            if buf is not None:
+                buf[0] = v
+                buf[-1] = -v
+                done = True
+        if done:
+            return
+        how = "cell"
     if how == "drop" and len(fr) <= 2:
         how = "column"
     if how in ("cell", "fill") and not floats:
@@ -723,11 +831,32 @@ def run_history(job):
                     if res is pf:
                         fail({"call": call, "broken": "result is the data object's own frame"},
                              "predict returned the data object's private frame", step)
+                    st = stored_frames(OBJ[name]["obj"])
+                    sh = sorted({c for v in st.values() for c in shared_columns(res, v)})
+                    reach = buffer_write_reaches(res, st)
+                    if sh or reach:
+                        hands[-1]["shares"] = True
+                        rec["shares"] = sh
+                        fail({"call": call, "broken": "result shares value buffers with the data object"},
+                             "the frame returned by predict shares the value buffers of %s with the data object %s%s" % (
+                                 ",".join(sh) or "?", name,
+                                 " (a write through numpy into the result changed the data object's %s)" % ",".join(reach)
+                                 if reach else ""), step)
+                    for H in hands[:-1]:
+                        if H["from"] == "predict:" + name and not H.get("shares") and shared_columns(res, H["v"]):
+                            fail({"call": call, "broken": "two results share value buffers"},
+                                 "two frames returned by predict(%s) share value buffers" % name, step)
+                            break
             elif kind == "to_json":
                 call = M.__name__ + ".to_json"
                 obj.to_json()
                 if hasattr(obj, "to_dict"):
                     dd = obj.to_dict()
+                    for pth in shared_containers(dd, obj):
+                        fail({"call": M.__name__ + ".to_dict", "broken": "returned dict shares a mutable container with the model",
+                              "path": pth},
+                             "to_dict()[%s] is a container the model object itself keeps: editing the returned dict edits the model"
+                             % pth, step)
                     try:                                  # a caller may do what it likes with the returned dict
                         for k in list(dd)[:2]:
                             dd[k] = None
@@ -827,6 +956,22 @@ def run_history(job):
                     if attr == "df" and digest(h) != digest(pf):
                         fail({"call": call, "broken": "hand-out differs from the stored frame"},
                              "%s.%s does not equal the stored frame" % (cls, attr), step)
+                    if not alias:
+                        st = stored_frames(o)
+                        sh = sorted({c for v in st.values() for c in shared_columns(h, v)})
+                        reach = buffer_write_reaches(h, st)
+                        sh2 = shared_columns(h, again)
+                        if sh or reach:
+                            rec["shares"] = sh
+                            fail({"call": call, "broken": "hand-out shares value buffers with the data object"},
+                                 "%s.%s is a new frame object but shares the value buffers of %s with the frame the object keeps%s" % (
+                                     cls, attr, ",".join(sh) or "?",
+                                     " (a write through numpy into the hand-out changed the object's %s; a second read and a later "
+                                     "fit/predict see it)" % ",".join(reach) if reach else ""), step)
+                        elif sh2:
+                            rec["shares"] = sh2
+                            fail({"call": call, "broken": "two hand-outs share value buffers"},
+                                 "two successive reads of %s.%s share the value buffers of %s" % (cls, attr, ",".join(sh2)), step)
                     if alias:
                         fail({"call": call, "broken": "hand-out is not a copy"},
                              "%s.%s hands out a frame the object keeps (every access returns the same object; mutating it "
@@ -835,7 +980,7 @@ def run_history(job):
                         if H["v"] is h and not alias:
                             fail({"call": call, "broken": "two hand-outs are the same frame"},
                                  "%s.%s returned the same frame twice" % (cls, attr), step)
-                    hands.append({"v": h, "from": key, "alias_of": key if alias else None})
+                    hands.append({"v": h, "from": key, "alias_of": key if alias else None, "shares": bool(rec.get("shares"))})
                     rec["new_hand"] = len(hands) - 1
             elif kind == "mutate":
                 where, k, how = op[1], op[2], MUTATIONS[op[3] % len(MUTATIONS)]
@@ -850,6 +995,9 @@ def run_history(job):
                                                           else "it passed to a constructor")
                     expect_changed.add("%s:%d" % (where, k))
                     expect_changed.add("%s:%d:meta" % (where, k))
+                    if where == "H" and how == "buffer" and pool[k].get("shares"):
+                        how = "cell"
+                        rec["how"] = how
                     if where == "H" and pool[k].get("alias_of"):
                         # the hand-out IS the object's frame (reported at the hand-out): writing into it would damage
                         # the data object for the rest of the run
